@@ -15,12 +15,17 @@ STACK_SRC := $(filter-out $(REPO)/src/driver/%,$(shell find $(REPO)/src -name '*
 SAN  := -fsanitize=address,undefined -fno-sanitize=alignment -fno-sanitize-recover=undefined -fno-omit-frame-pointer
 COPT := -g -O1 $(SAN) $(GUARD)
 HARN_SRC := $(wildcard engine/*.cpp sim/*.cpp model/*.cpp props/*.cpp)
-HDRS := $(wildcard engine/*.h sim/*.h model/*.h props/*.h)
+HDRS := $(wildcard engine/*.h sim/*.h model/*.h props/*.h fuzz/*.h)
 
 DEF_n1 := -DVF_BUILD=1
 DEF_n2 := -DVF_BUILD=2 -DCO_SSDO_N=2 -DCO_CSDO_N=2
+DEF_f1 := -DVF_BUILD=1 -DVF_FUZZ
+DEF_f2 := -DVF_BUILD=2 -DCO_SSDO_N=2 -DCO_CSDO_N=2 -DVF_FUZZ
 INS_n1 := -fsanitize-coverage=trace-pc-guard
 INS_n2 := -fsanitize-coverage=trace-pc-guard
+INS_f1 := -fsanitize=fuzzer-no-link
+INS_f2 := -fsanitize=fuzzer-no-link
+FUZZ_SRC := $(filter-out engine/main.cpp,$(HARN_SRC)) fuzz/fuzz_main.cpp
 
 # $(1) build, $(2) stack source
 define STACKRULE
@@ -33,7 +38,7 @@ endef
 define HARNRULE
 $(B)/$(1)/h/$(subst /,_,$(basename $(2))).o: $(2) $(HDRS)
 	@mkdir -p $$(dir $$@)
-	$(Q)$(CXX) -std=gnu++17 $(COPT) $(DEF_$(1)) $(INC) -I. -MMD -MP -c $(2) -o $$@
+	$(Q)$(CXX) -std=gnu++17 $(COPT) $(DEF_$(1)) $(HINS_$(1)) $(INC) -I. -MMD -MP -c $(2) -o $$@
 OBJ_$(1) += $(B)/$(1)/h/$(subst /,_,$(basename $(2))).o
 endef
 define BINRULE
@@ -41,15 +46,26 @@ $(B)/$(1)/vf: $$(OBJ_$(1))
 	$(Q)$(CXX) $(SAN) -o $$@ $$^
 endef
 
-$(foreach b,n1 n2,$(foreach s,$(STACK_SRC),$(eval $(call STACKRULE,$(b),$(s)))))
+HINS_f1 := -fsanitize=fuzzer-no-link
+HINS_f2 := -fsanitize=fuzzer-no-link
+define FUZZBIN
+$(B)/$(1)/fz: $$(OBJ_$(1))
+	$(Q)$(CXX) $(SAN) -fsanitize=fuzzer -o $$@ $$^
+endef
+$(foreach b,n1 n2 f1 f2,$(foreach s,$(STACK_SRC),$(eval $(call STACKRULE,$(b),$(s)))))
 $(foreach b,n1 n2,$(foreach s,$(HARN_SRC),$(eval $(call HARNRULE,$(b),$(s)))))
+$(foreach b,f1 f2,$(foreach s,$(FUZZ_SRC),$(eval $(call HARNRULE,$(b),$(s)))))
 $(foreach b,n1 n2,$(eval $(call BINRULE,$(b))))
+$(foreach b,f1 f2,$(eval $(call FUZZBIN,$(b))))
 
-.PHONY: all n1 n2 clean
+.PHONY: all n1 n2 f1 f2 fuzz clean
 all: n1 n2
+fuzz: f1 f2
 n1: $(B)/n1/vf
 n2: $(B)/n2/vf
+f1: $(B)/f1/fz
+f2: $(B)/f2/fz
 clean:
 	rm -rf $(B)
 
--include $(OBJ_n1:.o=.d) $(OBJ_n2:.o=.d)
+-include $(OBJ_n1:.o=.d) $(OBJ_n2:.o=.d) $(OBJ_f1:.o=.d) $(OBJ_f2:.o=.d)
